@@ -12,10 +12,12 @@ import (
 	"os"
 	"path/filepath"
 	"reflect"
+	"strings"
 	"testing"
 
 	"github.com/cloudflare/circl/dh/csidh"
 	"github.com/cloudflare/circl/group"
+	"github.com/cloudflare/circl/kem"
 	"github.com/cloudflare/circl/kem/frodo/frodo640shake"
 	"github.com/cloudflare/circl/kem/kyber/kyber768"
 	"github.com/cloudflare/circl/kem/mlkem/mlkem768"
@@ -543,6 +545,102 @@ func reuseTable() []reuse {
 				}
 				return fmt.Sprintf("idx=%d sig=%x", k.Index, mb(ss.MarshalBinary()))
 			}})
+	}
+	// every KEM and signature scheme through the scheme-level decoders (these return a new object; the
+	// holder makes them fit the table): the decoded key must be a value of its own, not a view of the
+	// buffer it was decoded from, which the test overwrites right after decoding
+	type kemHolder struct {
+		pk kem.PublicKey
+		sk kem.PrivateKey
+	}
+	seenK := map[string]bool{}
+	for _, ks := range allKEMs() {
+		ks := ks
+		if seenK[ks.Name()] {
+			continue
+		}
+		seenK[ks.Name()] = true
+		n := 3
+		if strings.HasPrefix(ks.Name(), "Frodo") {
+			n = 2
+		}
+		var pkb, skb, cts [][]byte
+		eseed := sd(ks.EncapsulationSeedSize(), 0x4b01)
+		for i := 0; i < n; i++ {
+			pk, sk := ks.DeriveKeyPair(sd(ks.SeedSize(), 0x4b00+uint64(i)))
+			pkb, skb = append(pkb, mb(pk.MarshalBinary())), append(skb, mb(sk.MarshalBinary()))
+			ct, _, err := ks.EncapsulateDeterministically(pk, eseed)
+			if err != nil {
+				panic(err)
+			}
+			cts = append(cts, ct)
+		}
+		tab = append(tab,
+			reuse{name: "kem-scheme/" + ks.Name() + "/PublicKey", n: n, enc: func(i int) []byte { return pkb[i] },
+				newObj: func() any { return new(kemHolder) },
+				dec: func(o any, b []byte) (err error) {
+					o.(*kemHolder).pk, err = ks.UnmarshalBinaryPublicKey(b)
+					return err
+				},
+				observe: func(o any) string {
+					k := o.(*kemHolder).pk
+					ct, ss, err := ks.EncapsulateDeterministically(k, eseed)
+					return fmt.Sprintf("pk=%x ct=%x ss=%x err=%v", vlib.Hash64(mb(k.MarshalBinary())), vlib.Hash64(ct), ss, err)
+				}},
+			reuse{name: "kem-scheme/" + ks.Name() + "/PrivateKey", n: n, enc: func(i int) []byte { return skb[i] },
+				newObj: func() any { return new(kemHolder) },
+				dec: func(o any, b []byte) (err error) {
+					o.(*kemHolder).sk, err = ks.UnmarshalBinaryPrivateKey(b)
+					return err
+				},
+				observe: func(o any) string {
+					k := o.(*kemHolder).sk
+					out := fmt.Sprintf("sk=%x pub=%x", vlib.Hash64(mb(k.MarshalBinary())), vlib.Hash64(mb(k.Public().MarshalBinary())))
+					for _, ct := range cts {
+						ss, err := ks.Decapsulate(k, ct)
+						out += fmt.Sprintf(" %x/%v", ss, err == nil)
+					}
+					return out
+				}})
+	}
+	type signHolder struct {
+		pk sign.PublicKey
+		sk sign.PrivateKey
+	}
+	for _, sc := range signschemes.All() {
+		sc := sc
+		var pkb, skb, sigs [][]byte
+		msg := []byte("c11 scheme-level decoding")
+		for i := 0; i < 3; i++ {
+			pk, sk := sc.DeriveKey(sd(sc.SeedSize(), 0x5300+uint64(i)))
+			pkb, skb = append(pkb, mb(pk.MarshalBinary())), append(skb, mb(sk.MarshalBinary()))
+			sigs = append(sigs, sc.Sign(sk, msg, nil))
+		}
+		tab = append(tab,
+			reuse{name: "sign-scheme/" + sc.Name() + "/PublicKey", n: 3, enc: func(i int) []byte { return pkb[i] },
+				newObj: func() any { return new(signHolder) },
+				dec: func(o any, b []byte) (err error) {
+					o.(*signHolder).pk, err = sc.UnmarshalBinaryPublicKey(b)
+					return err
+				},
+				observe: func(o any) string {
+					k := o.(*signHolder).pk
+					out := fmt.Sprintf("pk=%x", vlib.Hash64(mb(k.MarshalBinary())))
+					for _, sg := range sigs {
+						out += fmt.Sprint(" ", sc.Verify(k, msg, sg, nil))
+					}
+					return out
+				}},
+			reuse{name: "sign-scheme/" + sc.Name() + "/PrivateKey", n: 3, enc: func(i int) []byte { return skb[i] },
+				newObj: func() any { return new(signHolder) },
+				dec: func(o any, b []byte) (err error) {
+					o.(*signHolder).sk, err = sc.UnmarshalBinaryPrivateKey(b)
+					return err
+				},
+				observe: func(o any) string {
+					k := o.(*signHolder).sk
+					return fmt.Sprintf("sk=%x pub=%x sig=%x", vlib.Hash64(mb(k.MarshalBinary())), vlib.Hash64(mb(k.Public().(sign.PublicKey).MarshalBinary())), vlib.Hash64(sc.Sign(k, msg, nil)))
+				}})
 	}
 	return tab
 }
